@@ -11,7 +11,7 @@ cd "$wt"
 git apply "$patch" || { echo "PATCH-DOES-NOT-APPLY $patch"; exit 2; }
 pkgs=$(git diff --name-only | xargs -n1 dirname | sort -u | sed 's#^#./#')
 if ! go build ./... >/dev/null 2>&1; then echo "MUTANT-DOES-NOT-BUILD $patch"; exit 2; fi
-if ! go test -count=1 $pkgs >/tmp/mut-test-$$.log 2>&1; then echo "REPO-TESTS-FAIL (mutant is caught by the repository's own tests) $patch"; tail -5 /tmp/mut-test-$$.log; rm -f /tmp/mut-test-$$.log; exit 3; fi
+if ! go test -count=1 -timeout 120s $pkgs >/tmp/mut-test-$$.log 2>&1; then echo "REPO-TESTS-FAIL (mutant is caught by the repository's own tests) $patch"; tail -5 /tmp/mut-test-$$.log; rm -f /tmp/mut-test-$$.log; exit 3; fi
 rm -f /tmp/mut-test-$$.log
 cd /verif
 out=$(VERIF_REPO="$wt" VERIF_NO_EVIDENCE=1 ./vcheck "$id" "$tier" 2>&1); rc=$?
